@@ -673,11 +673,11 @@ def selftest():
 
 
 SUBCHECKS = [
-    Sub('C14.list_ops', run, strategy=case_st(LIST_OPS, trailing_prob=1000), examples={'quick': 8000, 'thorough': 120000}),
+    Sub('C14.list_ops', run, strategy=case_st(LIST_OPS, trailing_prob=1000), examples={'quick': 8000, 'thorough': 120000}, ambient=('bytealigned',)),
     Sub('C14.trailing_bits_frame', run, strategy=case_st(['getitem', 'setitem', 'delitem', 'insert', 'pop', 'setslice', 'delslice', 'append', 'extend', 'reverse', 'data_edit', 'getslice'], trailing_prob=0),
-        examples={'quick': 6000, 'thorough': 80000}),
+        examples={'quick': 6000, 'thorough': 80000}, ambient=('bytealigned',)),
     Sub('C14.dtype_reinterpret_byteswap_bitwise', run, strategy=case_st(['set_dtype', 'bad_dtype', 'byteswap', 'bitwise', 'data_edit', 'getitem', 'astype', 'iter_copy_equals'], max_steps=8),
-        examples={'quick': 6000, 'thorough': 80000}),
-    Sub('C14.history', run, strategy=case_st(ALL_STEPS, max_steps=25), examples={'quick': 5000, 'thorough': 80000}),
-    Sub('C14.elementwise_promotion', run_elem, strategy=elem_case, examples={'quick': 12000, 'thorough': 200000}),
+        examples={'quick': 6000, 'thorough': 80000}, ambient=('bytealigned',)),
+    Sub('C14.history', run, strategy=case_st(ALL_STEPS, max_steps=25), examples={'quick': 5000, 'thorough': 80000}, ambient=('bytealigned',)),
+    Sub('C14.elementwise_promotion', run_elem, strategy=elem_case, examples={'quick': 12000, 'thorough': 200000}, ambient=('bytealigned',)),
 ]
